@@ -38,12 +38,19 @@ SPEC = {
                         "path -> link resolution is dynamic in the model (first compatible stored link)"],
     },
     "C03": {
-        "LEAN": {"modules": ["GfaProofs.C03", "GfaProofs.C13"], "support": ["GfaModel.Graph", "GfaModel.Version", "GfaProofs.C02", "GfaProofs.C09"],
-                 "theorems": ["Gfa.C03.defined_not_virtual", "Gfa.C03.add_defines", "Gfa.C03.add_cases", "Gfa.C03.ensureRefs_keeps",
+        "LEAN": {"modules": ["GfaProofs.C03", "GfaProofs.C03Perm", "GfaProofs.C13"], "support": ["GfaModel.Graph", "GfaModel.Version", "GfaProofs.C02", "GfaProofs.C09"],
+                 "theorems": ["Gfa.C03.build_simple_perm", "Gfa.C03.build_simple", "Gfa.C03.build_simple_placeholders", "Gfa.C03.add_step",
+                              "Gfa.C03.validSimple_perm", "Gfa.C03.defined_not_virtual", "Gfa.C03.add_defines", "Gfa.C03.add_cases", "Gfa.C03.ensureRefs_keeps",
                               "Gfa.C13.build_perm", "Gfa.C13.build_eq_spec", "Gfa.C02.closed_reachable_partial", "Gfa.C09.nodup_reachable"]},
-        "ASSUMPTIONS": ["the full statement (equal observation for every permutation) is not proved in Lean: proved are version invariance, "
-                        "replacement of placeholders by definitions, closure and uniqueness in every arrival order; equality across orders is decided "
-                        "by the oracle (library vs itself on all n! orders) and the correspondence (model vs library on sampled orders)"],
+        "ASSUMPTIONS": ["order independence is proved in Lean for documents of segments and segment-referencing lines (S, L, C, E, G, F; with or "
+                        "without identifiers; valid: distinct identifiers, segment references that are segments or undefined, pairwise incompatible "
+                        "links): every permutation builds the same version and the same multiset of lines = the document plus exactly one placeholder "
+                        "per mentioned-and-undefined identifier (build_simple, build_simple_perm, build_simple_placeholders); back-reference "
+                        "collections are queries over the lines in the model, so they agree too",
+                        "documents with paths, groups (placeholders of unknown type, same-id merging) and links given in both complement forms are outside "
+                        "the proved fragment: for them proved are version invariance, replacement of placeholders by definitions, closure and uniqueness "
+                        "in every arrival order; equality across orders is decided by the oracle (library vs itself on all n! orders) and the "
+                        "correspondence (model vs library on sampled orders)"],
     },
     "C05": {
         "LEAN": {"modules": ["GfaProofs.C05", "GfaProofs.C05Rename", "GfaProofs.Bridge.Connect"], "support": ["GfaModel.Graph", "GfaProofs.C02", "GfaProofs.C02Rename"],
